@@ -802,7 +802,7 @@ pub fn run(tier: Tier, totals: &mut Totals) {
     let opts = BfsOpts {
         max_depth: sys.depth,
         max_states: tier.pick(3_000_000, 30_000_000),
-        wall: Duration::from_secs(tier.pick(45, 900)),
+        wall: Duration::from_secs(tier.pick(55, 3000)),
         threads: 16,
     };
     let r = bfs(&sys, &opts);
